@@ -19,6 +19,42 @@ CLAIMED = {
         design="8/C07"),
 }
 
+DBNOTE = COMMON_NOTE + ("Modelled, not verified: encoding/json, tink AEAD and keyset wire format (the harness decrypts the database file itself "
+                        "with the documented layout to observe the stored state), sync.Mutex (calls are sequential here; concurrency is C14). "
+                        "Version numbers are Nat in the model (uint32 in the code; wrap-around needs 2^32 puts to one secret).")
+CLAIMED.update({
+    "C01": dict(
+        text=("Theorems about DB.step (one exported db.DB call): without a matching grant a well-formed call returns access-denied, leaves the "
+              "state unchanged and emits one record authorized=false, independent of the state (existing/absent/reserved names); a state change "
+              "or any disclosure implies the grant; list returns exactly the info-granted names with version numbers only. The grant is "
+              "Acl.allow, whose meaning is C07's theorem; the per-method action constants are extracted from db.go on every run (actions_table). "
+              "Tie: random histories with random rule sets and callers against the real db.DB, state observed through the API and by decrypting the file."),
+        note=DBNOTE, technique="Lean 4 theorems over the DB step function (case analysis via a proved normal form) + extracted action table + differential histories",
+        design="8/C01"),
+    "C02": dict(
+        text=("The sequential specification is the Lean KV model behind DB.step. Theorems: invariant (active exists, numbers in 1..latest) for every "
+              "reachable state by induction over histories; first put = version 1 active; later put = latest+1, fresh, active untouched; dedupe only "
+              "against an existing newest version; put_retrievable; failed calls change nothing; framing; active version not deletable; numbering "
+              "restarts only after delete. The pre-repair guard is kept as a proved counter-example (d2_original_guard_violates). Tie: every result and the "
+              "full state (incl. LatestVersion, read from the decrypted file) compared with the model after every step of generated histories."),
+        note=DBNOTE, technique="Lean 4 theorems (invariant by induction over operation histories, Std.ExtTreeMap extensionality) + differential histories",
+        design="8/C02"),
+    "C06": dict(
+        text=("Theorems: every call emits at most one record naming caller, action, secret, version; a value is returned or the state changes only if a "
+              "record authorized=true for exactly this call was accepted (the effect depends on the audit oracle, so it cannot precede the record); "
+              "every denial leaves one record authorized=false; if the record cannot be written the call fails with no value and no change; an unchanged "
+              "conditional get is silent; list writes one record. Tie: a recording/failing audit sink (Write or Sync failure at a chosen record) that also "
+              "checks the database file still has its pre-call contents when the record arrives. Concurrent appends rest on O_APPEND atomicity (assumption, sampled under C14)."),
+        note=DBNOTE + " Observation: a failed Write poisons encoding/json's Encoder, so the audit writer stays fail-closed until restart; histories end at an injected Write failure.",
+        technique="Lean 4 theorems over the proved normal form of a DB step + fault-injecting audit sink", design="8/C06"),
+    "C09": dict(
+        text=("Theorems (under the reachable-state invariant): for a granted caller and existing secret, conditional get with V is not-modified iff active = V; otherwise "
+              "the active version with its bytes is returned; V = 0 always returns the active value; absent -> not-found, no grant -> denied; the file client's table lookup "
+              "satisfies the same iff. Tie: histories of put/activate/delete interleaved with conditional gets carrying current/older/newer/deleted/0 versions at the DB API "
+              "(HTTP and client legs are added with C08)."),
+        note=DBNOTE, technique="Lean 4 theorems over the DB step normal form + differential histories", design="8/C09"),
+})
+
 NOT_YET = {}
 
 def manifest():
